@@ -49,6 +49,13 @@ Error JitRuntime::_add(void** dst, CodeHolder* code) noexcept {
   // in case that some relocations didn't require records in an address table.
   size_t code_size = estimated_code_size - relocation_summary.code_size_reduction;
 
+  // Nothing is left when the only content was address table entries that relocation didn't need. A span cannot be
+  // shrunk to zero bytes (it would stay registered without a size and a later `release()` would corrupt the allocator).
+  if (ASMJIT_UNLIKELY(code_size == 0)) {
+    _allocator.release(span.rx());
+    return make_error(Error::kNoCodeGenerated);
+  }
+
   // If not true it means that `relocate_to_base()` filled wrong information in `relocation_summary`.
   ASMJIT_ASSERT(code_size == code->code_size());
 
